@@ -167,8 +167,10 @@ class Model:
         # fresh private helpers (not in the baseline inventory) are inlined into their callers before anything is indexed
         self.inlined = []
         if not os.environ.get('MIROS_VERIF_NO_INLINE'):
-            from .normalise import inline_fresh_helpers, specialise_fresh_factories
-            self.inlined = specialise_fresh_factories(self.modules) + inline_fresh_helpers(self.modules)
+            from .normalise import inline_fresh_helpers, specialise_fresh_factories, nest_lifted_closures, split_conditional_expressions
+            split_conditional_expressions(self.modules)
+            self.inlined = specialise_fresh_factories(self.modules) + nest_lifted_closures(self.modules) + inline_fresh_helpers(self.modules)
+            split_conditional_expressions(self.modules)
         for m in self.modules.values():
             self._index_module(m)
         self._subclasses = None
